@@ -4,6 +4,7 @@ import (
 	"bytes"
 	"fmt"
 	"math/big"
+	"strings"
 	"testing"
 
 	"pgregory.net/rapid"
@@ -469,6 +470,15 @@ func famInts(b *base, emit func(candCase)) {
 	emit(b.cand("both:=0").withRS(bi(0), bi(0)).expect(false))
 	emit(b.cand("s:=n-r (t=0)").withRS(r, sub(bigN, r)).expect(false))
 	emit(b.cand("huge").withRS(new(big.Int).Lsh(r, 1200), s).expect(false))
+	// the whole width dimension: values whose low bytes are the valid r (resp. s)
+	for _, w := range wideValues(r, b.width(), 1) {
+		emit(b.cand("r:="+strings.Replace(w.name, "v", "r", 1)).withRS(w.v, s).expect(false))
+	}
+	for _, w := range wideValues(s, b.width(), 2) {
+		emit(b.cand("s:="+strings.Replace(w.name, "v", "s", 1)).withRS(r, w.v).expect(false))
+	}
+	wr, ws := wideValues(r, b.width(), 3), wideValues(s, b.width(), 4)
+	emit(b.cand("r,s:=wide").withRS(wr[5].v, ws[9].v).expect(false))
 	// strict DER whose SEQUENCE / INTEGER length fields grow an octet: content of
 	// 127/128, 255/256 and 65535/65536 bytes (short form -> 0x81 -> 0x82 -> 0x83)
 	sLen := len(derInt(s))
@@ -999,6 +1009,10 @@ func intChoice(sel int, orig *big.Int, seed uint64) *big.Int {
 		return sub(bigN, one)
 	case 10:
 		return bi(1)
+	case 12, 13:
+		// far above the range with the valid value in the low 32 bytes
+		w := wideValues(orig, 32, seed)
+		return w[int(seed>>8)%len(w)].v
 	default:
 		return new(big.Int).SetBytes(gen.Fill(seed, 32))
 	}
@@ -1128,8 +1142,8 @@ func TestC06_Random(t *testing.T) {
 			DigLen: rapid.SampledFrom([]int{32, 32, 32, 33, 48, 64, 200}).Draw(rt, "digLen"),
 			Seed:   rapid.Uint64().Draw(rt, "seed"),
 			Family: rapid.SampledFrom([]int{0, 0, 0, 1, 1, 2, 2, 3}).Draw(rt, "family"),
-			RSel:   rapid.IntRange(0, 11).Draw(rt, "rSel"),
-			SSel:   rapid.IntRange(0, 11).Draw(rt, "sSel"),
+			RSel:   rapid.IntRange(0, 13).Draw(rt, "rSel"),
+			SSel:   rapid.IntRange(0, 13).Draw(rt, "sSel"),
 		}
 		rc.Args = drawArgs(rt)
 		ne := rapid.IntRange(1, 3).Draw(rt, "nEdits")
